@@ -322,6 +322,7 @@ type step struct {
 	x    int  // max_requests of the first upstream (0 = not set)
 	dyn  bool // Y step: the upstreams come from a dynamic source
 	lat  bool // passive unhealthy_latency configured (latencyLimit)
+	act  bool // active health checks run every few milliseconds (thresholds out of reach: they must not change anything)
 	get  bool
 	rid  int
 	out  string
@@ -392,13 +393,14 @@ func parseStep(s string, K int) (st step, ok bool) {
 		}
 		st.dyn = st.op == 'Y'
 		if len(f) == 10 {
-			// tenth field: unhealthy_latency configured (then the ninth may be 0)
+			// tenth field: 1 = unhealthy_latency configured, 2 = active health checks running in
+			// the background, 3 = both (then the ninth field may be 0)
 			x, okx := num(f[8])
 			l, okl := num(f[9])
-			if !okx || !okl || x > 100 || l != 1 {
+			if !okx || !okl || x > 100 || l < 1 || l > 3 {
 				return st, false
 			}
-			st.x, st.lat = x, true
+			st.x, st.lat, st.act = x, l == 1 || l == 3, l >= 2
 		}
 		if len(f) == 9 {
 			var okx bool
@@ -560,12 +562,13 @@ type reqEvent struct {
 }
 
 type backend struct {
-	k    *kase
-	key  int
-	path string
-	l    net.Listener
-	srv  *http.Server
-	old  []*http.Server
+	k      *kase
+	key    int
+	path   string
+	l      net.Listener
+	srv    *http.Server
+	old    []*http.Server
+	health atomic.Int64 // active health checks served
 }
 
 type shadowFail struct {
@@ -679,6 +682,14 @@ func (b *backend) closeAll() {
 }
 
 func (b *backend) ServeHTTP(w http.ResponseWriter, r *http.Request) {
+	if r.URL.Path == "/verif-health" {
+		// an active health check: answered at once, alternately passing and failing
+		if b.health.Add(1)%2 == 0 {
+			w.WriteHeader(503)
+		}
+		w.Write([]byte("health"))
+		return
+	}
 	rid, err := strconv.Atoi(r.Header.Get("X-Rid"))
 	if err != nil {
 		w.WriteHeader(400)
@@ -780,6 +791,19 @@ func (k *kase) handlerJSON(st step, bad bool) []byte {
 		}
 		m["health_checks"] = map[string]any{"passive": pa}
 	}
+	if st.act && !st.dyn {
+		// active health checks against the same backends, every 5 ms, half of them failing; the
+		// `fails` threshold is out of reach, so no upstream is ever marked down by them: whatever
+		// they do must leave the in-flight / failure accounting and the pool alone
+		hc, _ := m["health_checks"].(map[string]any)
+		if hc == nil {
+			hc = map[string]any{}
+		}
+		hc["active"] = map[string]any{"uri": "/verif-health", "interval": int64(5 * time.Millisecond),
+			"timeout": int64(2 * time.Second), "passes": 1, "fails": 1000000000}
+		m["health_checks"] = hc
+		k.tag("active-health-checks-running")
+	}
 	if k.cf {
 		// the same configuration written as a Caddyfile `reverse_proxy` block and parsed by the
 		// real Handler.UnmarshalCaddyfile: option names, `5xx` classes, durations and defaults
@@ -801,7 +825,7 @@ func (k *kase) handlerJSON(st step, bad bool) []byte {
 // as a JSON object; ok=false if the step cannot be written as Caddyfile (an upstream's own
 // max_requests; passive checks present but with no option set).
 func (k *kase) viaCaddyfile(st step) (map[string]any, bool) {
-	if st.dyn || st.x > 0 || (st.p && st.d == 0 && st.m == 0 && st.q == 0 && st.s == 0 && !st.lat) {
+	if st.dyn || st.act || st.x > 0 || (st.p && st.d == 0 && st.m == 0 && st.q == 0 && st.s == 0 && !st.lat) {
 		return nil, false
 	}
 	var b strings.Builder
